@@ -59,6 +59,11 @@ func Classify(c Case) (bool, []string) {
 	for _, o := range c.Ops {
 		labels["method="+o.Method] = true
 		labels["payload="+o.Payload] = true
+		for _, cl := range o.Calls {
+			if cl.Stream && o.Payload == "json" {
+				labels["body handed over as a reader (sent chunked) under "+o.Method] = true
+			}
+		}
 		if len(o.consumesList()) > 1 {
 			labels["consumes lists a second media type after the payload's ("+o.Payload+" then "+o.AlsoConsumes+")"] = true
 		}
